@@ -166,7 +166,7 @@ func (c *Conn) Feed(b []byte) {
 	if len(b) == 0 {
 		return
 	}
-	c.in = append(c.in, b...)
+	c.in = bappend(c.in, b)
 	c.wakeReaders()
 }
 
@@ -222,7 +222,7 @@ func (c *Conn) Read(p []byte) (int, error) {
 			if n < max {
 				c.Fired.ShortReads++
 			}
-			copy(p, c.in[:n])
+			bcopy(p, c.in[:n])
 			c.in = c.in[n:]
 			c.log(Ev{Kind: EvRead, Off: c.inOff, N: n})
 			c.inOff += n
@@ -335,7 +335,7 @@ func (c *Conn) Release() {
 
 //go:norace
 func (c *Conn) deliver(b []byte) {
-	c.Wire = append(c.Wire, b...)
+	c.Wire = bappend(c.Wire, b)
 	c.Unflushed += len(b)
 	if c.Peer != nil && !c.Buffered {
 		c.Peer.Feed(b)
@@ -464,3 +464,40 @@ func (c *Conn) String() string {
 }
 
 var _ transport.Transport = (*Conn)(nil)
+
+// bcopy / bappend: byte loops instead of copy/append, because under -race the compiler routes those through
+// runtime.slicecopy, which records the accesses even in //go:norace code (false reports between tasks).
+//
+//go:norace
+func bcopy(dst, src []byte) int {
+	n := len(src)
+	if len(dst) < n {
+		n = len(dst)
+	}
+	for i := 0; i < n; i++ {
+		dst[i] = src[i]
+	}
+	return n
+}
+
+//go:norace
+func bappend(dst, src []byte) []byte {
+	need := len(dst) + len(src)
+	if need > cap(dst) {
+		nc := 2*cap(dst) + 64
+		if nc < need {
+			nc = need
+		}
+		nb := make([]byte, len(dst), nc)
+		for i := range dst {
+			nb[i] = dst[i]
+		}
+		dst = nb
+	}
+	k := len(dst)
+	dst = dst[:need]
+	for i := range src {
+		dst[k+i] = src[i]
+	}
+	return dst
+}
